@@ -155,9 +155,18 @@ def explorer_tests():
     return fails
 
 
+def sched_tests():
+    """Controlled scheduler (vlib/sched.py): lost update found with 1 preemption, none with a harness
+    lock, lock-order inversion reported as deadlock, replay reproducible, lock classes distinct."""
+    from . import sched
+
+    return sched.selftest()
+
+
 def main():
     fails = []
-    for name, f in (("vterm", vterm_tests), ("vtty", vtty_tests), ("explore", explorer_tests)):
+    for name, f in (("vterm", vterm_tests), ("vtty", vtty_tests), ("explore", explorer_tests),
+                    ("sched", sched_tests)):
         try:
             r = f()
         except Exception as e:  # noqa
